@@ -127,6 +127,9 @@ def run(ctx):
         if shares[0] != "ok":
             ctx.violation("split:generate_shares-raises:k%d-n%d" % (k, n), "generate_shares(k=%d, n=%d) raised %s" % (k, n, shares), {"kind": "split", "k": k, "n": n})
             continue
+        if not stream or not hasattr(SH, "randbits"):
+            from ..core import MachineryError
+            raise MachineryError("shamir.randbits is no longer the library's source of randomness: the byte-exact re-derivation of generate_shares does not apply to this tree")
         idv = stream[0][1]
         rest = [v for _, v in stream[1:]]
         drandom = bytes(rest[:nb - 4]) if k > 1 else b""
